@@ -62,8 +62,8 @@ func (t *Type) ID() string {
 type Field struct {
 	Name       string
 	Type       *Type
-	Index      int  // message / union index
-	Deprecated bool // message fields only
+	Index      int      // message / union index
+	Deprecated bool     // message fields only
 	Tags       []string // tag comments (//[tag(...)]) written before the field: struct tags under the field-tags option
 }
 
